@@ -129,7 +129,7 @@ impl World {
         let a = &self.infos[i];
         AcctSpec {
             key: *a_key(a),
-            owner: Pubkey::new_from_array(unsafe { *a.owner() }),
+            owner: Pubkey::new_from_array(*a.owner()),
             lamports: a.lamports(),
             data: self.raw_data(i),
             is_signer: a.is_signer(),
@@ -171,5 +171,24 @@ mod tests {
         assert!(w.info(1).is_writable());
         assert_eq!(w.info(0).lamports(), 5);
         assert_eq!(w.borrow_state(0), 0xFF);
+    }
+}
+
+/// Canonical error class of a star_frame error as the runtime would see it: `err:Custom<code>` for
+/// custom errors (e.g. 1000 ExpectedWritable, 1001 ExpectedSigner, 1002 AddressMismatch,
+/// 1003 DiscriminantMismatch), the `ProgramError` variant name otherwise.
+pub fn err_class(e: star_frame::errors::Error) -> String {
+    let pe: star_frame::pinocchio::program_error::ProgramError = e.into();
+    match pe {
+        star_frame::pinocchio::program_error::ProgramError::Custom(c) => format!("err:Custom{c}"),
+        other => format!("err:{other:?}"),
+    }
+}
+
+/// `ok` or the canonical error class.
+pub fn res_class<T>(r: star_frame::Result<T>) -> String {
+    match r {
+        Ok(_) => "ok".to_string(),
+        Err(e) => err_class(e),
     }
 }
